@@ -82,6 +82,24 @@ func main() {
 				c := text(n.Cond.Pos(), n.Cond.End())
 				muts = append(muts, mut{off(n.Cond.Pos()), off(n.Cond.End()), "!(" + c + ")", fmt.Sprintf("%s:%d negate `if %s`", fn, line(n.Pos()), oneLine(c))})
 				muts = append(muts, mut{off(n.Cond.Pos()), off(n.Cond.End()), "false && (" + c + ")", fmt.Sprintf("%s:%d never `if %s`", fn, line(n.Pos()), oneLine(c))})
+			case *ast.BasicLit:
+				if n.Kind == token.INT {
+					switch n.Value {
+					case "0":
+						muts = append(muts, mut{off(n.Pos()), off(n.End()), "1", fmt.Sprintf("%s:%d literal 0 -> 1", fn, line(n.Pos()))})
+					case "1":
+						muts = append(muts, mut{off(n.Pos()), off(n.End()), "0", fmt.Sprintf("%s:%d literal 1 -> 0", fn, line(n.Pos()))})
+						muts = append(muts, mut{off(n.Pos()), off(n.End()), "2", fmt.Sprintf("%s:%d literal 1 -> 2", fn, line(n.Pos()))})
+					case "2", "4":
+						muts = append(muts, mut{off(n.Pos()), off(n.End()), "1", fmt.Sprintf("%s:%d literal %s -> 1", fn, line(n.Pos()), n.Value)})
+					}
+				}
+			case *ast.Ident:
+				if n.Name == "true" {
+					muts = append(muts, mut{off(n.Pos()), off(n.End()), "false", fmt.Sprintf("%s:%d true -> false", fn, line(n.Pos()))})
+				} else if n.Name == "false" {
+					muts = append(muts, mut{off(n.Pos()), off(n.End()), "true", fmt.Sprintf("%s:%d false -> true", fn, line(n.Pos()))})
+				}
 			case *ast.BinaryExpr:
 				var r string
 				switch n.Op {
@@ -97,6 +115,14 @@ func main() {
 					r = "<="
 				case token.GTR:
 					r = ">="
+				case token.ADD:
+					r = "-"
+				case token.SUB:
+					r = "+"
+				case token.LEQ:
+					r = "<"
+				case token.GEQ:
+					r = ">"
 				}
 				if r != "" {
 					muts = append(muts, mut{off(n.OpPos), off(n.OpPos) + len(n.Op.String()), r, fmt.Sprintf("%s:%d `%s` -> `%s` in `%s`", fn, line(n.Pos()), n.Op, r, oneLine(text(n.Pos(), n.End())))})
